@@ -44,7 +44,10 @@ def _case(draw):
     rs = [r for r in rs if r > 0]
     if name == "buck4":
         rs.extend([p[3], p[4], p[5], (p[3] + p[4]) / 2, (p[4] + p[5]) / 2])
-    return {"form": name, "p": p, "rs": rs}
+    # a second parameter vector for the same form, evaluated at the SAME separations in between: the value
+    # of a form depends on (r, parameters) only, not on what was evaluated before
+    p2 = list(draw(gen.form_params(name)))
+    return {"form": name, "p": p, "rs": rs, "p_alt": p2}
 
 
 def strategy(tier):
@@ -69,6 +72,11 @@ def validate(case):
         return False
     if case["form"] == "polynomial" and not case["p"]:
         return False
+    if "p_alt" in case:
+        if ar is not None and len(case["p_alt"]) != ar:
+            return False
+        if case["form"] == "polynomial" and not case["p_alt"]:
+            return False
     return all(r > 0 for r in case["rs"]) and len(case["rs"]) > 0
 
 
@@ -150,6 +158,31 @@ def check_case(case):
         if vals and max(vals) - min(vals) > 1e-12 * j.c[0].e + 1e-300:
             v.append(("routes_disagree:%s" % name, "as.%s %r at r=%r: %r" % (name, p, r, got)))
         checked += 1
+    # history independence: f(r, p), f(r, p_alt), f(r, p) at the same r through the shared module-level objects
+    p2 = case.get("p_alt")
+    if p2 is not None and name != "buck4" and not v:
+        fn = getattr(pfun, name)
+        fac = getattr(pform, name)
+        for r in rs[:4]:
+            try:
+                j1 = ref.simple(node, Jet.var(r, 0), model.Trace())
+                j2 = ref.simple({"k": "form", "name": name, "p": p2}, Jet.var(r, 0), model.Trace())
+            except DomainError:
+                continue
+            try:
+                seq = [fn(r, *p), fn(r, *p2), fn(r, *p), fac(*p2)(r), fac(*p)(r)]
+            except Exception as e:
+                v.append(("sequence:exception:%s" % type(e).__name__, "%s %r / %r at r=%r: %r" % (name, p, p2, r, e)))
+                break
+            wants = [j1, j2, j1, j2, j1]
+            for k, (got_, w) in enumerate(zip(seq, wants)):
+                if libroute.realnum(got_) is None or not abs(got_ - w.v) <= 256 * EPS * w.c[0].e + 1e-300:
+                    v.append(("sequence:value:%s" % name, "as.%s evaluated at r=%r with parameters %r, %r, %r, ...: call %d "
+                              "returned %r, documented formula gives %r" % (name, r, p, p2, p, k + 1, got_, w.v)))
+                    break
+            if v:
+                break
+        cls.append("sequence_checked")
     if checked == 0:
         return {"v": v, "cls": cls, "nt": False, "skip": True}
     nt = _nontrivial(p)
